@@ -14,11 +14,13 @@ static std::vector<size_t> all_lengths(bool thorough) {
     static const size_t primes[] = {67, 127, 131, 257, 521, 1031, 2053, 4099};
     static const size_t comps[] = {96, 120, 192, 360, 384, 640, 1000, 1536, 3000};
     static const size_t odds[] = {75, 99, 135, 225, 243, 625, 1125, 3375};
+    static const size_t twoodd[] = {70, 130, 250, 606, 1026, 2050, 3750, 6250};   // N/2 odd (unrolled or paired loops over the half spectrum)
     std::vector<size_t> v;
     for (size_t n = 64; n <= (thorough ? 16384u : 4096u); n *= 2) v.push_back(n);
     for (int i = 0; i < (thorough ? 8 : 6); i++) v.push_back(primes[i]);
     for (int i = 0; i < (thorough ? 9 : 7); i++) v.push_back(comps[i]);
     for (int i = 0; i < (thorough ? 8 : 6); i++) v.push_back(odds[i]);
+    for (int i = 0; i < (thorough ? 8 : 6); i++) v.push_back(twoodd[i]);
     return v;
 }
 
